@@ -1,6 +1,6 @@
 (** C11 - close() is sticky, unblocks every consumer, and never strands an async poller. *)
 From Coq Require Import List Arith ZArith Bool.
-From SH Require Import base.Pool gen.Extracted_iter iter.Model iter.Base iter.Skeleton iter.Close.
+From SH Require Import base.Pool gen.Extracted_iter iter.Model iter.Base iter.Skeleton iter.Close iter.Adapter.
 Import ListNotations.
 
 (** The closed flag, once set, stays set: for every schedule [ls1] reaching a world where it is
@@ -72,3 +72,66 @@ Example C11_window_example :
   let w := reach false 8 ([LSpawnA 10; LStep 0; LStep 0; LStep 0; LCall OForever; LCons 0; LCall OPoll; LSpawnK] ++ repeat (LCons 0) 129 ++ [LStep 1; LStep 1; LCons 0; LCons 0]) in
   closew (w_sh w) = true /\ cpc_ (w_co w) = CIdle /\ cres_ (w_co w) = RClosed /\ ncb (w_co w) = 0.
 Proof. vm_compute. repeat split; reflexivity. Qed.
+
+(** ---- the asynchronous adapters (signal-hook-tokio, signal-hook-async-std) ----
+    [adapter_poll_next pm w] is what Stream::poll_next returns: the adapter's extracted
+    PollResult -> Poll map applied to the result of its single poll_signal call;
+    [adapter_cb cm] is its has_signals: the extracted Poll -> Result<bool> map applied to the
+    runtime's [poll_read].  The reactor's contract is the pair of hypotheses on [poll_read]
+    (an ASSUMPTION about tokio / async-io): nothing readable => Pending with the task's waker
+    registered for readability of the read end; a byte readable => it is read.
+
+    If an adapter's poll_next returns Poll::Pending in a reachable world of any schedule, then in
+    that very call the callback was consulted and last answered "nothing"; for this adapter that
+    answer means poll_read returned Pending and registered the waker; and the registration is
+    still armed or has fired and is outstanding.  For both adapters. *)
+Theorem C11_adapter_pending_means_waker_registered :
+  forall (poll_read : shared -> rres * shared),
+  (forall s, pipe s = 0 -> poll_read s = (RdPending, set_pipe s 0 true (notified s))) ->
+  (forall s p, pipe s = S p -> poll_read s = (RdReady 1, set_pipe s p (armed s) (notified s))) ->
+  forall pm cm,
+  (pm, cm) = (tokio_poll_map, tokio_cb_map) \/ (pm, cm) = (asyncstd_poll_map, asyncstd_cb_map) ->
+  forall raw c ls, 1 <= c ->
+  let w := reach raw c ls in
+  cpc_ (w_co w) = CIdle -> adapter_poll_next pm w = APending ->
+  cop (w_co w) = OPoll /\ 1 <= ncb (w_co w) /\ cb_last (w_co w) = Some false /\
+  (forall s, fst (adapter_cb poll_read cm s) = Some false ->
+             fst (poll_read s) = RdPending /\ armed (snd (poll_read s)) = true) /\
+  (armed (w_sh w) = true \/ notified (w_sh w) = true).
+Proof.
+  intros poll_read H0 H1 pm cm [E|E] raw c ls Hc; inversion E; subst.
+  - exact (adapter_pending_means_waker_registered poll_read H0 H1 _ _ raw c ls tokio_good Hc).
+  - exact (adapter_pending_means_waker_registered poll_read H0 H1 _ _ raw c ls asyncstd_good Hc).
+Qed.
+
+(** Once close() has returned, for both adapters: a poll_next in progress is back within
+    MAX_SIGNUM + 3 steps of the polling task with Ready(None) or a last Ready(Some) (never
+    Poll::Pending, never a panic); a poll_next that finds the flag set at its first test answers
+    Ready(None) at that step - the stream ends; and a task parked on an earlier Poll::Pending has
+    its wake-up notification outstanding, so it polls again. *)
+Theorem C11_adapter_closed_ends_stream :
+  forall pm cm,
+  (pm, cm) = (tokio_poll_map, tokio_cb_map) \/ (pm, cm) = (asyncstd_poll_map, asyncstd_cb_map) ->
+  forall raw c ls, 1 <= c ->
+  let w := reach raw c ls in
+  closew (w_sh w) = true ->
+  (cop (w_co w) = OPoll -> cpc_ (w_co w) <> CIdle ->
+     exists n, 1 <= n /\ n <= MAX_SIGNUM + 3 /\ cpc_ (w_co (csolo n w)) = CIdle /\
+               (adapter_poll_next pm (csolo n w) = AReadyNone \/ adapter_poll_next pm (csolo n w) = AReadySome)) /\
+  (cpc_ (w_co w) = CP1 -> cpc_ (w_co (cstep_w w)) = CIdle /\ adapter_poll_next pm (cstep_w w) = AReadyNone) /\
+  (cpc_ (w_co w) = CIdle -> adapter_poll_next pm w = APending -> notified (w_sh w) = true).
+Proof.
+  intros pm cm [E|E] raw c ls Hc; inversion E; subst.
+  - exact (adapter_closed_ends_stream _ _ raw c ls tokio_good Hc).
+  - exact (adapter_closed_ends_stream _ _ raw c ls asyncstd_good Hc).
+Qed.
+
+(** The contract is satisfiable (and is what the model's callback step does). *)
+Example C11_reactor_contract_example :
+  let poll_read := fun s => match pipe s with
+                            | O => (RdPending, set_pipe s 0 true (notified s))
+                            | S p => (RdReady 1, set_pipe s p (armed s) (notified s))
+                            end in
+  (forall s, pipe s = 0 -> poll_read s = (RdPending, set_pipe s 0 true (notified s))) /\
+  (forall s p, pipe s = S p -> poll_read s = (RdReady 1, set_pipe s p (armed s) (notified s))).
+Proof. simpl. split; intros; rewrite H; reflexivity. Qed.
